@@ -14,8 +14,7 @@ variable {q : Core.Prog} {p : Fun.CheckedProgram}
 
 /-- what the simulation needs to know about the source program and its translation -/
 structure Ctx (p : Fun.CheckedProgram) (q : Core.Prog) : Prop where
-  hq : q.codataTypes = []
-  hp : p.codataTypes = []
+  cod : CodOK p q
   /-- definition names of the translation are pairwise distinct -/
   nodup : (q.defs.map (·.name)).Nodup
   /-- the body of a translated definition mentions only its parameters -/
@@ -24,7 +23,8 @@ structure Ctx (p : Fun.CheckedProgram) (q : Core.Prog) : Prop where
   defs : ∀ f d, Fun.findDef p f = some d → f ≠ "main" →
     ∃ D a τ τ', D ∈ q.defs ∧ D.name = ⟨f, 0⟩ ∧
       D.ctx = compileContext d.ctx ++ [⟨⟨a, 0⟩, .cns, τ⟩] ∧
-      Compiled q 0 d.body (.var .cns ⟨a, 0⟩ τ') D.body ∧ good d.body = true ∧
+      Compiled q 0 d.body (.var .cns ⟨a, 0⟩ τ') D.body ∧
+      Core.isCodata q.codataTypes τ' = false ∧ good p d.body = true ∧
       a ∉ d.ctx.map (·.var) ∧ (d.ctx.map (·.var)).Nodup ∧ (∀ x ∈ fv d.body, x ∈ d.ctx.map (·.var))
 
 theorem find_of_mem_nodup {D : Core.Def} : ∀ {defs : List Core.Def}, D ∈ defs →
@@ -59,15 +59,16 @@ theorem step_ret_case (p : Fun.CheckedProgram) (K : String) (vs : List Fun.Value
 
 /-- a constructor value meets a `case` continuation -/
 theorem ret_case {n : Nat} {k : Fun.Stack} {ρ ρ1 : CEnv} {cs' : Core.Clauses}
-    (h : KRel GP q n k (.case ρ cs')) {v : Fun.Value} {V : CVal} {S : Core.State}
-    (hv : VRel GP q n v V) (hn : n ≤ S.fresh) (ha : AgreeOn (tfvClauses cs' []) ρ ρ1)
+    (h : KRel (GP p) q n k (.case ρ cs')) {v : Fun.Value} {V : CVal} {S : Core.State}
+    (hv : VRel (GP p) q n v V) (hn : n ≤ S.fresh) (ha : AgreeOn (tfvClauses cs' []) ρ ρ1)
     (hs : Core.step q S = S.pass V (.case ρ1 cs')) :
-    Chunk p q (R q) true (.ret v k) S := by
+    Chunk p q (R p q) true (.ret v k) S := by
   cases h with
   | @caseF cs env k' ρ0 _ c _ hgood hcc he hr hy hbd hag =>
     cases hv with
     | int a => exact .inl ⟨0, _, .stuck .notData, .refl _, rfl, fun h => h.elim⟩
     | cont _ => exact .inl ⟨0, _, .stuck .notData, .refl _, rfl, fun h => h.elim⟩
+    | obj _ _ _ _ _ => exact .inl ⟨0, _, .stuck .notData, .refl _, rfl, fun h => h.elim⟩
     | @con K vs Vs hl =>
       have hstep := step_ret_case p K vs cs env k'
       cases hf : Fun.findClause K cs with
@@ -90,7 +91,7 @@ theorem ret_case {n : Nat} {k : Fun.Stack} {ρ ρ1 : CEnv} {cs' : Core.Clauses}
           obtain ⟨hm1, hm2, hm3, hm4⟩ := findClause_mem cs K cl hf
           -- bind on the ideal environment
           have hbA' : Fun.bindAll (cl.ctx.map (·.var)) vs env = some env' := by rw [hnames]; exact hbA
-          obtain ⟨ρ0', hbind0, he'⟩ := EnvRel.bindAll (G := GP) (q := q) (xs := fv cl.body)
+          obtain ⟨ρ0', hbind0, he'⟩ := EnvRel.bindAll (G := GP p) (q := q) (xs := fv cl.body)
             (he.sub fun x hx => hm1 x (by rw [← hnames]; exact hx)) hl (by rw [hnames]; exact hnd) hbA'
           -- bind on the actual environment
           obtain ⟨ρ1', hbind1⟩ := bind_ok_of_length (compileContext cl.ctx) Vs ρ1
